@@ -274,23 +274,66 @@ func c01SingleWrite(c *Ctx) {
 		if !r.Anchor("C01/SINGLE-WRITE", "pkg/conn."+name, fn != nil) {
 			continue
 		}
-		isWrite := func(in ssa.Instruction) bool {
+		// a write event is w.Write itself or a call to a helper of the package that, on every one of
+		// its paths, performs exactly one write event (the single Write extracted into a function)
+		memo := map[*ssa.Function]int{}
+		var classify func(f *ssa.Function, depth int) (int, bool, bool, int)
+		var isWriteAt func(in ssa.Instruction, depth int) bool
+		isWriteAt = func(in ssa.Instruction, depth int) bool {
 			ci, ok := in.(*ssa.Call)
-			return ok && ci.Call.IsInvoke() && ci.Call.Method.Name() == "Write"
+			if !ok {
+				return false
+			}
+			if ci.Call.IsInvoke() {
+				return ci.Call.Method.Name() == "Write"
+			}
+			cal := ci.Call.StaticCallee()
+			if cal == nil || cal.Pkg != fn.Pkg || cal.Blocks == nil || depth > 2 {
+				return false
+			}
+			k, _, _, _ := classify(cal, depth+1)
+			return k != 0
 		}
-		miss, _, _ := core.PathAvoiding(fn, nil, core.IsReturn, isWrite)
-		twice := false
-		n := 0
-		for _, b := range fn.Blocks {
-			for _, in := range b.Instrs {
-				if isWrite(in) {
+		// classify: 0 never writes, 1 exactly one write event on every path, -1 anything else
+		classify = func(f *ssa.Function, depth int) (int, bool, bool, int) {
+			if k, ok := memo[f]; ok && f != fn {
+				return k, false, false, 0
+			}
+			memo[f] = -1
+			isW := func(in ssa.Instruction) bool { return isWriteAt(in, depth) }
+			n, bad := 0, false
+			twice := false
+			for _, b := range f.Blocks {
+				for _, in := range b.Instrs {
+					if !isW(in) {
+						continue
+					}
 					n++
-					if again, _, _ := core.PathAvoiding(fn, in, isWrite, nil); again {
+					if ci := in.(*ssa.Call); !ci.Call.IsInvoke() {
+						if k, _, _, _ := classify(ci.Call.StaticCallee(), depth+1); k < 0 {
+							bad = true
+						}
+					}
+					if again, _, _ := core.PathAvoiding(f, in, isW, nil); again {
 						twice = true
 					}
 				}
 			}
+			miss := false
+			if n > 0 {
+				miss, _, _ = core.PathAvoiding(f, nil, core.IsReturn, isW)
+			}
+			k := 1
+			switch {
+			case n == 0:
+				k = 0
+			case bad || miss || twice:
+				k = -1
+			}
+			memo[f] = k
+			return k, miss, twice, n
 		}
+		_, miss, twice, n := classify(fn, 0)
 		r.Check(!miss && !twice && n > 0, "C01/SINGLE-WRITE", "pkg/conn "+name, p.Pos(fn.Pos()), "exactly one w.Write on every path", fmt.Sprintf("the element is written with %d Write call sites (a path without Write=%v, two Writes on one path=%v)", n, miss, twice))
 	}
 }
